@@ -141,6 +141,17 @@ func (c *FnCtx) doCall(frame *Frame, st *State, in ssa.Instruction, call *ssa.Ca
 				return
 			}
 		}
+		// call through a func-typed struct field (s.strategy(x)): nameable in call-site rules as
+		// "field.<name>"
+		if u, ok := call.Value.(*ssa.UnOp); ok && key == "" {
+			if fa, ok := u.X.(*ssa.FieldAddr); ok {
+				if pt, ok := fa.X.Type().Underlying().(*types.Pointer); ok {
+					if stt, ok := pt.Elem().Underlying().(*types.Struct); ok {
+						key = "field." + stt.Field(fa.Field).Name()
+					}
+				}
+			}
+		}
 		// func-typed parameter with a param contract
 		if p, ok := call.Value.(*ssa.Parameter); ok {
 			pk := c.key + "@param:" + p.Name()
